@@ -32,6 +32,7 @@ UNITS = {
     'SERFIX': dict(template='serfix.rs', rlimit=30),
     'VALUESER': dict(template='valueser.rs', rlimit=30),
     'ACCSESS': dict(template='accsess.rs', rlimit=30),
+    'LINKATTACH': dict(template='linkattach.rs', rlimit=30),
 }
 
 VARW = 'PROVED for every value (units SERSTR + READERS): strings, symbols and binaries of ANY length and content, outside and inside arrays -- the serializer writes a valid str8/str32, sym8/sym32, vbin8/vbin32 encoding whose size field counts octets ([C05.*.encoding], [C05.*.array-element]); the decoder reads both width variants by the AMQP layout and accepts every one of them from a reliable reader ([C05.*.decoding], [C05.*.every-variant-accepted]); lemma_var_round_trip joins the two: decode(encode(x) ++ rest) == x, consuming exactly the encoding; serialized_size agrees with the octets written ([C20.size.*]); compound headers are decoded to the body length and count the layout defines ([C05.compound.header-decoding])'
@@ -168,7 +169,7 @@ PROPS = {
             'SenderLink::send_payload is under contract in unit SENDSPLIT with get_delivery_tag_or_detached (the tokio::select! between consume(1) and the detach notification) as a stand-in: one credit per delivery, no transfer without a credit',
             'TryConsume::try_consume (transaction feature) duplicates consume_link_credit and is not under contract']),
     'C09': dict(
-        units=['LINKFLOW', 'SESSION', 'LINK'], kani=[], level='proof', title='Receiver link credit',
+        units=['LINKFLOW', 'SESSION', 'LINK', 'LINKATTACH'], kani=[], level='proof', title='Receiver link credit',
         lemmas={'LINKFLOW': ['lemma_c09_threshold_reached_within_credit']},
         assumptions=[ASYNC,
             'parking_lot::RwLock and Arc<AtomicU32> erased: disposal concurrent with recv from another task is not modelled',
@@ -205,14 +206,14 @@ PROPS = {
             'controller side (unit TXNCTRL): declare_on_link, discharge_on_link, send_on_control_link, Transaction::discharge, OwnedTransaction::discharge, post_inner, TransactionRetirement::retire, DeliveryState::{accepted_or_else, declared_or_else} are under contract with the control link / sender / receiver as ghost-trace stand-ins and the Mutex around the control link erased; post_ref_inner, acquisition and the rollback-on-drop path are not',
             'the coordinator (unit TXNCOORD): on_declare, on_discharge, reject, handle_delivery_result under contract with the session requests and the receiver link as ghost-trace stand-ins', 'NOT DECIDED: the coordinator event loop (select!), abort of the remaining ids on Drop / when the controlling link goes away, several concurrent control links, freshness of a transaction id over the whole history (only among live ids)']),
     'C11': dict(
-        units=['SESSION', 'FRAMEENC', 'CONN', 'SENDSPLIT', 'CONNENG', 'ACCSESS'],
+        units=['SESSION', 'FRAMEENC', 'CONN', 'SENDSPLIT', 'CONNENG', 'ACCSESS', 'LINKATTACH'],
         lemmas={'SENDSPLIT': ['lemma_link_expected'], 'FRAMEENC': ['lemma_expected_properties']}, kani=[], level='proof', title='Identifiers',
         assumptions=[ASYNC, ENGINE,
             'fewer than 2^32 link handles are live in one session (handle = slab key as u32)',
             'slab::Slab is modelled as a partial map whose vacant key is unoccupied (trusted stand-in)',
             'concurrent attaches are serialised by the session engine (not verified)']),
     'C13': dict(
-        units=['SESSION', 'LINK', 'SESSENG', 'LINKDETACH', 'SENDSPLIT', 'RECVLOOP'],
+        units=['SESSION', 'LINK', 'SESSENG', 'LINKDETACH', 'SENDSPLIT', 'RECVLOOP', 'LINKATTACH'],
         lemmas={'SESSENG': ['lemma_ext_trans']}, kani=[], level='proof', title='Session and link lifecycles',
         assumptions=[ASYNC, ENGINE,
             '"returns only after the peer\'s answer" is decided as a safety clause (detach / close / end_session / wait_for_remote_end return Ok only once the peer\'s detach / End has been taken from the incoming channel; units LINKDETACH, SESSENG); "answered no later than the next operation" and "within bounded time" are liveness statements and are not decided',
@@ -225,7 +226,7 @@ PROPS = {
             'NOT DECIDED: what a dropped future does inside library futures; the Detach arm of recv_inner and Sender::send\'s wait for the outcome; starvation dynamics under repeated cancellation beyond the per-call credit leak; duplicates (none possible in the functions under contract: a frame leaves the channel once)',
             ASYNC]),
     'C15': dict(
-        units=['SESSION', 'CONN', 'FRAMEDEC', 'LINK', 'CONNENG', 'TRANSPORT', 'SEQACCESS', 'ACCSESS'], kani=[], level='proof', title='Misbehaving peer',
+        units=['SESSION', 'CONN', 'FRAMEDEC', 'LINK', 'CONNENG', 'TRANSPORT', 'SEQACCESS', 'ACCSESS', 'LINKATTACH'], kani=[], level='proof', title='Misbehaving peer',
         assumptions=[ASYNC, ENGINE,
             'never-blocks-forever and isolation between connections are not decided',
             'handlers of peer input carry no precondition on the peer-controlled arguments']),
